@@ -56,7 +56,9 @@ def run(ctx, facts):
         else:
             ctx.violation("PANIC", RELOAD, "%s:%s" % (e["kind"], re.sub(r"^(Result|Option)::unwrap on ", r"\1::unwrap on ", e["detail"]))[:110], e["where"],
                           "`%s` can abort reload_json: a truncated or corrupt parameters file must be reported as Err" % d[:120])
-    ctx.floor("C20 panic edges of reload_json", n, 1)
+    # zero panic edges is a legitimate state (e.g. `match` instead of is_err()/unwrap()); what must not shrink is the body inspected
+    from .. import mirq
+    ctx.floor("C20 call terminators of reload_json inspected for panic edges", len(list(mirq.calls(rfn["mir"]))), 5)
     for e in panic.edges_of(facts, DUMP):
         if e["expn"][1] in hirq.LOG_MACROS:
             continue
